@@ -53,15 +53,18 @@ CHECKS = {
  },
  "C05": {
   "category": "proof",
-  "text": "PARTIAL. Proved: decode (encode e) = e for every prefix-free codeword table whatever follows in the packet (tree walk vs table), reads consume exactly the width "
-          "written, accepted mode tables are valid. Decided per run on real encoder output (18 channel/rate configurations incl. 255 channels, all qualities, managed modes, "
-          "control settings; silence, full scale, noise, impulses, DC, denormals, beyond +-1): the three headers are accepted by the decoder AND by the strict model parser with "
-          "identical fields, equal to the encoder's own info structure; every audio packet is accepted by both, window flags agree with the neighbouring blocks, the model's "
-          "and the decoder's bit position after the packet agree and lie within the last byte (unmanaged); managed packets are never rejected and only run out of bits when a "
-          "hard maximum is configured; every third packet's full spectrum is compared bit for bit.",
-  "note": "Trusted: Coq kernel, extraction, harness/c05enc.c + pd.c. The encoder's psychoacoustic choices are inputs; pack/unpack symmetry of the header writers is established by "
-          "the per-run field comparison, not by a pack_unpack theorem. Print Assumptions: closed.",
-  "technique": "Coq proof (codeword round trip, exact field consumption) + strict model parser/decoder run on real encoder output, exact correspondence with the decoder",
+  "text": "PARTIAL for audio packets, proof for headers. Proved: the header parser reads back exactly what the header packers write - unpack_setup (pack_setup s ++ pad) = Some s "
+          "for EVERY packable set-up (Pack.v models _vorbis_pack_books, vorbis_staticbook_pack with its ordered / sparse / dense codeword-length encodings and both value "
+          "mappings, floor1_pack, res0_pack, mapping0_pack, the mode table), likewise each codebook alone and the identification header; decode (encode e) = e for every "
+          "prefix-free codeword table whatever follows in the packet; reads consume exactly the width written. Per run on real encoder output (18 channel/rate "
+          "configurations incl. 255 channels, all qualities, managed modes, control settings; silence, full scale, noise, impulses, DC, denormals, beyond +-1): the three "
+          "headers are accepted by the decoder AND by the strict model parser with identical fields, equal to the encoder's own info structure; re-packing the parsed "
+          "set-up with the packer model reproduces the header bytes; every audio packet is accepted by both, window flags agree with the neighbouring blocks, the bit position "
+          "after the packet agrees and lies within the last byte (unmanaged); managed packets are never rejected and only run out of bits when a hard maximum is configured; "
+          "every third packet's full spectrum is compared bit for bit.",
+  "note": "Trusted: Coq kernel, extraction, harness/c05enc.c + pd.c. The encoder's psychoacoustic choices (posts, partition classes, values) are inputs; that its audio "
+          "packets are consumed exactly is decided per run by the strict model decoder, not by a floor/residue encode-decode theorem. Print Assumptions: closed.",
+  "technique": "Coq proof (pack/unpack round trip of all headers, codeword round trip) + strict model parser/decoder/packer run on real encoder output, exact correspondence with the decoder",
  },
  "C18": {
   "category": "proof",
